@@ -2,6 +2,7 @@ import Treepath.Proofs.ErrorLemmas
 import Treepath.Proofs.MutateLemmas
 import Treepath.Model.Builder
 import Treepath.Generated.ExcMro
+import Treepath.Proofs.LastStep
 /- C16 — only the documented errors escape, and they can be printed -/
 namespace Treepath.C16
 variable {α : Type}
@@ -120,6 +121,40 @@ theorem setMatch_only_documented (stepsOf : Heap → List (Step Val)) (src : Src
 theorem set_root_is_setError (stepsOf : Heap → List (Step Val)) (src : Src Val) (cascade : Bool) (h : Heap) (v : Val)
     (hroot : stepsOf h = []) : (setMatch stepsOf src cascade h v).2 = .error .setError := by
   simp [setMatch, hroot, setMatchN]
+
+/-- **`pop` / `pop_match` fail only with PopError, (Nested)MatchNotFoundError or a documented
+traversal error** — on a store that unfolds to a tree: the `KeyError` / `IndexError` branches of
+`vertex.pop` are dead, because the match `pop` has just found is a child named by the last step
+that its parent's container still holds (`vertexPop_on_found`, through the specification:
+`last_name_results`) -/
+theorem popMatch_only_documented (stepsOf : Heap → List (Step Val)) (root : Val) (j : J) (h h' : Heap)
+    (hu : Unf h root j) (hwf : HeapWF h)
+    (sb : Array (Step J)) (hsteps : LRel (StepRel (Unf h)) (stepsOf h) sb.toList) (hp : PredsClean sb)
+    (hsup : ∀ s ∈ stepsOf h, s.supported = true) (mm : Bool) (e : ApiErr)
+    (hpop : popMatch stepsOf (.doc root) mm h = (h', .error e)) :
+    e = .popError ∨ e = .matchNotFound ∨ e = .nestedMatchNotFound ∨ (∃ x, e = .exc x ∧ x.documented = true) ∨
+      (∃ m, e = .bug m) := by
+  simp only [popMatch] at hpop
+  split at hpop
+  · simp at hpop
+  · rename_i m hg
+    split at hpop
+    · simp at hpop
+    · rename_i e1 hv
+      simp only [Prod.mk.injEq, Except.error.injEq] at hpop
+      rw [← hpop.2]
+      have := vertexPop_on_found h root j hu hwf (stepsOf h).toArray sb (by simpa using hsteps) hp mm m hg e1
+        (by simpa using hv)
+      exact .inl this
+  · rename_i e0 hg
+    simp only [Prod.mk.injEq, Except.error.injEq] at hpop
+    rw [← hpop.2]
+    rcases getMatch_only_documented (wcx h) (stepsOf h).toArray (.doc root) mm (by simpa using hsup) e0 hg with
+      h1 | h1 | h1 | h1
+    · exact .inr (.inl h1)
+    · exact .inr (.inr (.inl h1))
+    · exact .inr (.inr (.inr (.inl h1)))
+    · exact .inr (.inr (.inr (.inr h1)))
 
 /-- `pop` / `pop_match` aimed at the root (or any match whose last step is not a key or
 index): PopError -/
